@@ -7,11 +7,17 @@
        textbook expansion z W_z + u z w W_zw + F - E, and D + r_0 is the
        linearisation of the protocol's identity (exhaustive in two
        coordinates at a time, the rest from a seeded vector).
-3. Binding: specification-driven reference verifier (no hooks). The harness
+3. Binding 1: specification-driven reference verifier (no hooks). The harness
        only parses bytes, runs merlin from the exported item list and does
        MSM + pairing; TLC (TraceVerifier = Protocol!VerifierScalars over the
        real field) supplies every scalar. Its verdict must equal
        Verifier::verify_with_version on every triple.
+4. Binding 2 (transcript trace hook): the operations the real verifier (every
+       triple that reaches verify_with_version) and the real prover (honest
+       proofs; compilation) perform on their transcripts - kind, label,
+       payload bytes, squeezed challenges - equal EXACTLY the operations of
+       Transcript!VerifierItems / ProverItems executed on the same data, and
+       prover and verifier squeeze the same challenges.
 """
 import collections
 import json
@@ -72,7 +78,7 @@ def _conformance(ck, d, items, workers, timeout):
     n, ids = _scalars_from_tlc(tv.out, os.path.join(d, "scalars.ndjson"))
     if n != n_events or len(ids) != n_events:
         raise vlib.ToolError("TraceVerifier judged %d of %d events" % (n, n_events))
-    out = vlib.harness("refverify", ["judge", "--dir", d], timeout=timeout)
+    out = vlib.harness("refverify", ["judge", "--dir", d, "--items", items], timeout=timeout)
     return vlib.read_ndjson_text(out), n_events
 
 
@@ -94,6 +100,60 @@ def _account(ck, results):
                                         "ref": r["ref"].split(":")[0]},
                                 "triple": r.get("replay"), "result": r})
     return by
+
+
+def _account_transcripts(ck, d, results):
+    """Binding 2: the transcript operations recorded by the implementation
+    (trace hook) equal, exactly, what the exported item list performs."""
+    seen = {}
+    n_cmp = 0
+    for r in results:
+        tr = r.get("tr") or {}
+        if tr.get("compared"):
+            n_cmp += 1
+        if tr.get("ok", True):
+            continue
+        diff = tr.get("diff") or {}
+        key = {"site": "verify-transcript", "phase": tr.get("phase"), "version": r["version"],
+               "at": diff.get("at"), "label": diff.get("label")}
+        k = json.dumps(key, sort_keys=True)
+        if k in seen:
+            seen[k] += 1
+            continue
+        seen[k] = 1
+        ck.violation("the verifier's transcript differs from Transcript!VerifierItems at operation %s "
+                     "(label %r, V%s, %s): expected %s, observed %s"
+                     % (diff.get("at"), diff.get("label"), r["version"], tr.get("phase"),
+                        json.dumps(diff.get("expected"))[:200], json.dumps(diff.get("observed"))[:200]),
+                     {"key": key, "triple": r.get("replay"), "diff": diff,
+                      "result": {k2: r[k2] for k2 in ("id", "kind", "family", "version", "real", "ref")}})
+    n_p = 0
+    pt = os.path.join(d, "prover_trace.ndjson")
+    if os.path.exists(pt):
+        for l in open(pt):
+            r = json.loads(l)
+            n_p += 1
+            ck.case({"prover-transcript": [r["family"], r["phase"], r.get("version"), r.get("salt")]})
+            if r.get("ok"):
+                continue
+            diff = r.get("diff") or {}
+            key = {"site": "prove-transcript", "phase": r["phase"], "version": r.get("version"),
+                   "at": diff.get("at"), "label": diff.get("label"),
+                   "challenges_agree": r.get("challenges_agree")}
+            k = json.dumps(key, sort_keys=True)
+            if k in seen:
+                seen[k] += 1
+                continue
+            seen[k] = 1
+            ck.violation("the prover's transcript differs from Transcript!ProverItems (%s, family %s, V%s) at "
+                         "operation %s (label %r), or prover and verifier squeezed different challenges "
+                         "(challenges_agree=%s)%s"
+                         % (r["phase"], r["family"], r.get("version"), diff.get("at"), diff.get("label"),
+                            r.get("challenges_agree"), (": " + r["error"]) if "error" in r else ""),
+                         {"key": key, "record": r})
+    ck.extra["transcripts_compared"] = {"verifier": n_cmp, "prover": n_p,
+                                        "distinct_differences": {k: v for k, v in seen.items()}}
+    return n_cmp, n_p
 
 
 def run(tier):
@@ -132,6 +192,10 @@ def run(tier):
         raise vlib.ToolError("judge returned %d results for %d triples" % (len(results), stats["triples"]))
     by = _account(ck, results)
     ck.traces += len(results)
+    n_cmp, n_p = _account_transcripts(ck, d, results)
+    if n_cmp < 10 or n_p < 4:
+        raise vlib.ToolError("transcript comparison is vacuous: %d verifier / %d prover traces" % (n_cmp, n_p))
+    ck.traces += n_cmp + n_p
     # anti-vacuity: honest proofs accepted under their own version, by both
     acc = [r for r in results if r["kind"] == "honest" and r["real"] == "accept" and r["ref"] == "accept"]
     if len(acc) < 4:
